@@ -1424,6 +1424,9 @@ func (e *Engine) callAssertHooks(st *State, fr *Frame, calleeName string, args [
 			st.flags["called:"+c.Args[0]] = "true"
 		}
 	}
+	if e.con.usesCalled() {
+		st.flags["called:"+lastName(calleeName)] = "true"
+	}
 	if e.con.has("count-calls") {
 		n := 0
 		fmt.Sscanf(st.flags["calls:"+lastName(calleeName)], "%d", &n)
